@@ -39,6 +39,7 @@ type Program struct {
 	seamField     map[string]*seam                 // see seams.go
 	seamGlobal    map[string]*seam
 	afterFuncLike map[*ssa.Function]int // wrappers of time.AfterFunc -> index of the callback parameter
+	constGlobals  map[*ssa.Global]bool  // effectively constant package-level variables (globals.go)
 }
 
 func loadProgram(repo string, goarch string) (*Program, error) {
